@@ -753,6 +753,13 @@ func (e *Env) call(x *ECall) CV {
 			unsupp("contract: fresh() needs a reference in a two-state context")
 		}
 		return CV{k: cvBool, t: lt(e.old.alloc, a.v.ts[0])}
+	case "allocated":
+		// the reference denotes an object that exists in the current state
+		a := arg(0)
+		if a.k != cvVal {
+			unsupp("contract: allocated() needs a reference")
+		}
+		return CV{k: cvBool, t: and(le("0", a.v.ts[0]), le(a.v.ts[0], e.st.alloc))}
 	case "typeis":
 		a := arg(0)
 		s, ok := x.Args[1].(*EStr)
